@@ -448,6 +448,9 @@ fn cb_programs(rec: &Rec) -> Vec<Vec<CbOp>> {
         vec![CbOp::SetName(b"Host.Example".to_vec(), vec![]), CbOp::Name],
         vec![CbOp::SetName(b"www".to_vec(), nm("zone.test")), CbOp::Name],
         vec![CbOp::SetName(b"a..b".to_vec(), vec![])],
+        vec![CbOp::SetName(b"www.abs.".to_vec(), nm("zone.test")), CbOp::Name],
+        vec![CbOp::SetName(b".".to_vec(), nm("zone.test")), CbOp::Name],
+        vec![CbOp::SetName(b"".to_vec(), nm("zone.test")), CbOp::Name],
         vec![CbOp::SetName(b"nul\0in..name".to_vec(), vec![]), CbOp::Name],
         vec![CbOp::SetName(b"nul\0ok".to_vec(), nm("zone.test")), CbOp::Name],
         // read, change, read, change to another value of the same size, read: whatever the table remembers
